@@ -59,12 +59,18 @@ class Renderer:
         self.lib = lib
         self.problems = []
         cands = []
+        # private structs that carry a reference to the options (a render context)
+        self.carriers = set()
+        for ap, adt in lib.adts.items():
+            if ap != "options::Options" and not adt["pub"] and any(fl["ty"].get("adt") == "options::Options" for v in adt["variants"] for fl in v["fields"]):
+                self.carriers.add(ap)
         for path, f in lib.fns.items():
             if path not in lib.bodies:
                 continue
             ins = [i.get("adt") for i in f["inputs"]]
             out_param = any(i.get("s", "").startswith("&mut std::string::String") for i in f["inputs"])
-            if "options::Options" in ins and (f["output"].get("adt") == "std::string::String" or out_param):
+            sees_options = "options::Options" in ins or any(i in self.carriers for i in ins)
+            if sees_options and (f["output"].get("adt") == "std::string::String" or out_param):
                 cands.append(lib.bodies[path])
         self.option_fns = sorted(b.name for b in cands)
         def _emits_somewhere(b0):
@@ -99,7 +105,13 @@ class Renderer:
             return True
         self.orig_name = b.name
         b = self.body = mir.inline_calls(lib, b, emits)
-        self.opt_arg = [i for i, t in enumerate(f["inputs"]) if t.get("adt") == "options::Options"][0] + 1
+        direct = [i for i, t in enumerate(f["inputs"]) if t.get("adt") == "options::Options"]
+        self.ctx_arg = None
+        if direct:
+            self.opt_arg = direct[0] + 1
+        else:
+            self.ctx_arg = [i for i, t in enumerate(f["inputs"]) if t.get("adt") in self.carriers][0] + 1
+            self.opt_arg = self.ctx_arg
         self.self_arg = 1
         self.entry = [x for x in cands if x.name != self.orig_name]
         # accumulators
@@ -251,15 +263,47 @@ class Renderer:
     def emissions_in(self, blocks):
         return [e for e in self.emissions if e.site.bb in blocks]
 
+    def option_roots(self):
+        """locals that hold the &Options: the parameter itself, or copies of the options field of a context parameter"""
+        b = self.body
+        if self.ctx_arg is None:
+            return {self.opt_arg}
+        roots = set()
+        changed = True
+        while changed:
+            changed = False
+            for s in b.assigns():
+                n = s.node
+                if n["place"]["p"] or n["rv"]["k"] != "use":
+                    continue
+                src = mir.op_place(n["rv"]["op"])
+                if src is None:
+                    continue
+                cs = b.canon(src)
+                from_ctx = cs["l"] == self.ctx_arg and any(isinstance(e, dict) and e.get("adt") in self.carriers and (e.get("ty") or "").find("options::Options") >= 0 for e in cs["p"])
+                from_root = cs["l"] in roots and not cs["p"]
+                if (from_ctx or from_root) and n["place"]["l"] not in roots:
+                    roots.add(n["place"]["l"])
+                    changed = True
+        return roots
+
     def option_field_reads(self):
-        """(field name or None for the whole struct, Site, place) for every read through the &Options parameter"""
+        """(field name or None for the whole struct, Site, place) for every read through the &Options"""
         b = self.body
         out = []
+        roots = self.option_roots()
         for s in b.sites():
             for p in mir.site_reads(s):
                 cp = b.canon(p)
-                if cp["l"] != self.opt_arg:
+                if cp["l"] not in roots:
+                    # direct path through the context: (*(*ctx).options).field
+                    if self.ctx_arg is not None and cp["l"] == self.ctx_arg:
+                        fs = [e for e in cp["p"] if isinstance(e, dict) and "f" in e]
+                        if len(fs) >= 2 and fs[0].get("adt") in self.carriers and fs[1].get("adt") == "options::Options":
+                            out.append((fs[1]["f"], s, cp))
                     continue
-                fields = [e["f"] for e in cp["p"] if isinstance(e, dict) and "f" in e]
+                if self.ctx_arg is not None and s.si is not None and s.node["k"] == "assign" and s.node["rv"]["k"] == "use" and not cp["p"]:
+                    continue  # copying the reference into another local
+                fields = [e["f"] for e in cp["p"] if isinstance(e, dict) and "f" in e and e.get("adt") == "options::Options"]
                 out.append((fields[0] if fields else None, s, cp))
         return out
